@@ -304,13 +304,9 @@ func c08JudgeA(c c08ACase) (clause, detail string) {
 		return "not-rfc4791", fmt.Sprintf("%v in %s", err, trunc(string(cap.Body), 400))
 	}
 	got.Other = nil
-	if got.Filter != nil {
-		n := normCompFilter(*got.Filter)
-		got.Filter = &n
-	}
-	if got.CalData != nil {
-		got.CalData.Expand = normRange(got.CalData.Expand)
-	}
+	// An open bound must be ABSENT on the wire: an independent reader takes start="..." end="00010101T000000Z"
+	// (Go's zero time written out) for a range that ends in the year 1, not for an open one. (Until the repair
+	// "omit an open bound" this check read that spelling as "absent", which was a loosened oracle.)
 	if a, b := js(got), js(want); a != b {
 		return "altered", fmt.Sprintf("wire denotes %s; caller meant %s", a, b)
 	}
@@ -575,7 +571,7 @@ func init() {
 		}
 		r.Rule = fmt.Sprintf("direction A: %d CalendarQuery/CalendarMultiGet values (comp-filter trees up to 3 levels over 4 names incl. non-ASCII, is-not-defined at all three levels, time ranges {both, start only, end only} in 3 zones, text-match over {a,' a<b&c ','',é} x negate, param-filters, 5 component selections incl. nested names and expand in a non-UTC zone, href lists over 20 special names) sent by the real client and read by an independent strict RFC 4791 reader; direction B: every reference report of the same space written by an independent writer in lexical styles (3 namespace styles x indent x attribute order x empty-element form x explicit negate-condition=no; quick: one rotating style each + all 24 styles on a sample) and sent to the real handler over a recording backend; non-trivial = every case; distinct by (value, style)", len(acases))
 		r.Explanation = "the client's request body must parse under the independent RFC 4791 grammar (namespaces, names, DTD child order, UTC date form) and denote the caller's value; the recorded backend argument must equal what the document denotes"
-		r.Assumptions = []string{"an open range bound may be written as 00010101T000000Z (Go zero time) - treated as absent", "the zero CalendarCompRequest (empty component name) is not generated: what it denotes is unspecified"}
+		r.Assumptions = []string{"the zero CalendarCompRequest (empty component name) is not generated: what it denotes is unspecified"}
 		r.Extra["direction_a_cases"] = len(acases)
 		r.Parallel(len(acases), func(i int, s *engine.Shard) {
 			c := acases[i]
